@@ -36,6 +36,13 @@ NUM_POOL = [Fraction(-15, 2), Fraction(-5, 4), Fraction(-1), Fraction(0), Fracti
             Fraction(5, 4), Fraction(5, 2), Fraction(33, 10), Fraction(10), Fraction(7, 5)]
 
 
+import datetime as _dt
+_D = lambda y, m, d, s=0: (_dt.date(y, m, d).toordinal(), s)   # noqa: E731
+# dates with and without a time part (the engine stores a column as DATE or TIMESTAMP depending on its values)
+DATE_POOL = [_D(2020, 3, 5), _D(2020, 3, 5, 36000), _D(2020, 3, 4, 86399), _D(2020, 2, 29), _D(1999, 12, 31), _D(2021, 1, 1, 1), _D(2020, 3, 6), _D(2020, 12, 31, 43200)]
+PERIOD_POOL = ['2020', '2021', '2020S1', '2020Q2', '2020Q4', '2020M1', '2020M12', '2020W53', '2020D366', '2021D1']
+
+
 def value(rnd, t, null_p=0.15):
     if rnd.random() < null_p:
         return NULL
@@ -48,6 +55,14 @@ def value(rnd, t, null_p=0.15):
         return B(rnd.random() < 0.5)
     if t == 'String':
         return S(rnd.choice(STR_POOL))
+    if t == 'Date':
+        return [5, list(rnd.choice(DATE_POOL))]
+    if t == 'Time_Period':
+        return [13, rnd.choice(PERIOD_POOL)]
+    if t == 'Duration':
+        return [13, rnd.choice(['A', 'S', 'Q', 'M', 'W', 'D'])]
+    if t == 'Time':
+        return [13, rnd.choice(['2020-01-01/2020-12-31', '2020-03-05/2020-03-05', '1999-12-31/2000-01-01'])]
     raise ValueError(t)
 
 
@@ -56,6 +71,10 @@ def key_value(rnd, t, space):
         return I(rnd.randrange(1, space + 1))
     if t == 'String':
         return S(rnd.choice(['a', 'b', 'c', 'A', 'd e', '€'][:max(2, min(space, 6))]))
+    if t == 'Time_Period':
+        return [13, PERIOD_POOL[rnd.randrange(0, min(len(PERIOD_POOL), max(2, space)))]]
+    if t == 'Date':
+        return [5, list(DATE_POOL[rnd.randrange(0, min(len(DATE_POOL), max(2, space)))])]
     raise ValueError(t)
 
 
